@@ -913,6 +913,11 @@ class CodeGenerator(NodeVisitor):
                 self.writeline("finally: await agen.aclose()")
             self.outdent(1 + (not self.has_known_extends))
 
+        # A block can be rendered inside a region that changes the eval
+        # context at runtime (an autoescape block), so in such templates
+        # the blocks have to follow the runtime eval context.
+        volatile_blocks = node.find(nodes.EvalContextModifier) is not None
+
         # at this point we now have the blocks collected and can visit them too.
         for name, block in self.blocks.items():
             self.writeline(
@@ -925,6 +930,9 @@ class CodeGenerator(NodeVisitor):
             # It's important that we do not make this frame a child of the
             # toplevel template.  This would cause a variety of
             # interesting issues with identifier tracking.
+            saved_eval_ctx = eval_ctx.save()
+            if volatile_blocks:
+                eval_ctx.volatile = True
             block_frame = Frame(eval_ctx)
             block_frame.block_frame = True
             undeclared = find_undeclared(block.body, ("self", "super"))
@@ -951,6 +959,7 @@ class CodeGenerator(NodeVisitor):
             self.blockvisit(block.body, block_frame)
             self.leave_frame(block_frame, with_python_scope=True)
             self.outdent()
+            eval_ctx.revert(saved_eval_ctx)
 
         blocks_kv_str = ", ".join(f"{x!r}: block_{x}" for x in self.blocks)
         self.writeline(f"blocks = {{{blocks_kv_str}}}", extra=1)
